@@ -43,7 +43,7 @@ def worker_main(prop_id, tier, seed, shard, nshards, out_path, runs, max_seconds
         ctx.last_case = case
         ctx.count()
         try:
-            common.cold_module()
+            runner._fresh_case()
             mod.run_case(case, ctx)
         finally:
             ctx.end_case()
